@@ -159,4 +159,79 @@ Section DrainGuardAt.
     - intros e He. rewrite (fb_ledger _ _ _ Hfr). apply Hout. exact He.
     - rewrite (fb_next _ _ _ Hfr). exact Hnext.
   Qed.
+
+  (* impl Drop for Drain on the object, with ANY set of panicking destructors: in every outcome other
+     than the abort of a double panic the vector is prefix ++ suffix and the window has been destroyed
+     exactly once -- also when a destructor panics half way (the guard finishes the job) *)
+  Theorem drain_drop_at_spec gfuel : forall fuel s i0 d b bl off i j r,
+    iter_get i0 s = (Val (IDrain d), s) ->
+    drain_inv cfg s d b bl off i j r -> (Z.to_nat (j - i) < fuel)%nat -> (Z.to_nat (j - i) < gfuel)%nat ->
+    NoDup (window bl i j) -> (forall e, In e (window bl i j) -> ledger s e = Live) ->
+    post (bind (drain_drop_loop_at cfg fuel gfuel i0) (fun _ => drain_guard_at cfg gfuel i0) s)
+      (fun _ s' => drain_gone cfg s s' d b bl i j r) (fun s' => drain_gone cfg s s' d b bl i j r).
+  Proof.
+    induction fuel as [|fuel IH]; intros s i0 d b bl off i j r Hi0 Hinv Hf Hgf Hnd Hlive; [lia|].
+    cbn [drain_drop_loop_at]. rewrite bind_assoc.
+    destruct (drain_next_at_eq cfg Hcfg s i0 d b bl off i j r Hi0 Hinv) as (o & d1 & Hn & Hat).
+    rewrite (drain_next_spec cfg Hcfg _ _ _ _ _ _ _ _ Hinv) in Hn.
+    rewrite (bind_val _ _ _ _ _ Hat).
+    destruct (Z.ltb_spec i j) as [L|G]; inversion Hn; subst o d1; clear Hn.
+    - pose proof (window_cons bl i j L) as Hwc.
+      set (e := slot_elem (slots bl i)) in *.
+      set (d1 := with_pos d (PElt b off (i + 1))) in *.
+      set (sa := with_iter s i0 (IDrain d1)).
+      assert (HeIn : In e (window bl i j)) by (rewrite Hwc; left; reflexivity).
+      assert (Hnd' : NoDup (window bl (i + 1) j) /\ ~ In e (window bl (i + 1) j)).
+      { rewrite Hwc in Hnd. inversion Hnd; subst. split; assumption. }
+      destruct Hnd' as [Hnd' Hnin].
+      assert (Hla : ledger sa e = Live) by (apply (Hlive e); exact HeIn).
+      destruct (drop_elem_live cfg Htracked sa e Hla) as (s1 & Hd1 & He1).
+      pose proof (drain_inv_front cfg _ _ _ _ _ _ _ _ Hinv L) as Hinv1.
+      pose proof (drain_inv_with_iter s i0 (IDrain d1) _ _ _ _ _ _ _ Hinv1) as Hinva. fold sa in Hinva.
+      pose proof (drain_inv_destroyed cfg _ _ _ _ _ _ _ _ _ _ Hinva Hd1) as Hinv1'.
+      assert (Hi1 : iter_get i0 s1 = (Val (IDrain d1), s1)).
+      { apply (iter_get_iters sa s1); [exact (ds_iters _ _ _ Hd1)|apply iter_get_with_iter]. }
+      assert (Hlive1 : forall x, In x (window bl (i + 1) j) -> ledger s1 x = Live).
+      { intros x Hx. rewrite (ds_out _ _ _ Hd1) by (intros [<-|[]]; contradiction). apply (Hlive x). rewrite Hwc. right. exact Hx. }
+      assert (Hlift : forall s', drain_gone cfg s1 s' d1 b bl (i + 1) j r -> drain_gone cfg s s' d b bl i j r).
+      { intros s' (bl' & H1 & H2 & H3 & H4 & H5 & H6 & H7). exists bl'. simpl in *.
+        split; [exact H1|]. split; [exact H2|]. split; [exact H3|]. split; [exact H4|]. split; [|split].
+        - intros x Hx. rewrite Hwc in Hx. destruct Hx as [<-|Hx].
+          + rewrite H6 by exact Hnin. apply (ds_in _ _ _ Hd1). left. reflexivity.
+          + apply H5. exact Hx.
+        - intros x Hx. rewrite Hwc in Hx.
+          rewrite H6 by (intros H; apply Hx; right; exact H).
+          rewrite (ds_out _ _ _ Hd1) by (intros [<-|[]]; apply Hx; left; reflexivity). reflexivity.
+        - rewrite H7. rewrite (ds_next _ _ _ Hd1). reflexivity. }
+      rewrite bind_assoc.
+      unfold bind at 1. unfold on_unwind. rewrite He1.
+      destruct (mem e (drop_panics sa)).
+      + (* the destructor panics: the guard runs as cleanup *)
+        pose proof (drain_guard_at_spec gfuel s1 i0 d1 b bl off (i + 1) j r Hi1 Hinv1' ltac:(lia) Hnd' Hlive1) as Hg.
+        destruct (drain_guard_at cfg gfuel i0 s1) as [[u| | | | |] s2]; simpl in *; auto.
+      + specialize (IH s1 i0 d1 b bl off (i + 1) j r Hi1 Hinv1' ltac:(lia) ltac:(lia) Hnd' Hlive1).
+        eapply post_weaken; [exact IH| |]; intros; apply Hlift; assumption.
+    - (* the window is empty: the final guard has nothing to destroy and cannot panic *)
+      rewrite bind_ret.
+      assert (i = j) by (destruct Hinv as [_ _ _ _ _ _ Ho _]; lia). subst j.
+      destruct gfuel as [|g]; [lia|].
+      rewrite drain_guard_at_unfold. cbn [drain_rest_at]. rewrite bind_assoc.
+      rewrite (bind_val _ _ _ _ _ Hat). rewrite bind_ret.
+      rewrite (tail_at_eq s i0 d b bl off i r Hi0 Hinv).
+      destruct (guard_tail_spec cfg Hcfg s d b bl off i r Hinv) as (s' & Hg & Hv' & Hfr & Hb' & Hvel & Hini).
+      rewrite Hg. simpl.
+      eexists. split; [exact Hv'|]. split; [exact Hb'|]. split; [exact Hvel|]. split; [exact Hini|].
+      rewrite (window_nil bl i i) by lia.
+      split; [intros e []|]. split; [intros e _; rewrite (fb_ledger _ _ _ Hfr); reflexivity|exact (fb_next _ _ _ Hfr)].
+  Qed.
+
+  Corollary drain_drop_at_machine s i0 d b bl off i j r :
+    iter_get i0 s = (Val (IDrain d), s) -> drain_inv cfg s d b bl off i j r ->
+    NoDup (window bl i j) -> (forall e, In e (window bl i j) -> ledger s e = Live) ->
+    post (drain_drop_at cfg (S (Z.to_nat (j - i))) i0 s)
+      (fun _ s' => drain_gone cfg s s' d b bl i j r) (fun s' => drain_gone cfg s s' d b bl i j r).
+  Proof.
+    intros Hi0 Hinv Hnd Hlive. unfold drain_drop_at.
+    apply (drain_drop_at_spec _ _ s i0 d b bl off i j r Hi0 Hinv); [lia|lia|exact Hnd|exact Hlive].
+  Qed.
 End DrainGuardAt.
